@@ -359,6 +359,22 @@ def suite_sizes(tier, seed):
                         # retried that many times and must then report the same clean error
                         cfg["retries"] = [5, 0, 1, 255][n % 4]
                         drivers.append({"id": "sz:%s:%s:%d:%s:%d:%d" % (layout, kind, si, k, s, sz), "cfg": cfg, "ops": ops})
+    # the last bytes of the arena: the cursor k bytes below capacities that are and are not multiples of the alignment, then a
+    # request whose padding decides whether it still fits
+    for layout in ["plain", "unify"]:
+        backends = LAYOUTS[layout][2]
+        doff = 32 if layout == "unify" else 1
+        for cap in ([96, 99] if layout == "plain" else [127, 128]):
+            for k in range(0, 26):
+                for j, op in enumerate([{"k": "at", "s": 8, "a": 8, "o": False}, {"k": "at", "s": 16, "a": 16, "o": False},
+                                        {"k": "at", "s": 4, "a": 4, "o": False}, {"k": "at", "s": 24, "a": 8, "o": False},
+                                        {"k": "aa", "s": 8, "a": 8, "n": 0, "o": False}, {"k": "aa", "s": 8, "a": 8, "n": 5, "o": False},
+                                        {"k": "ab", "n": max(k, 1), "o": False}, {"k": "ab", "n": k + 1, "o": False}]):
+                    kind = ["opt", "pes", "none"][(k + j) % 3]
+                    cfg = cfg_for(layout, kind, backends[(k + j) % len(backends)], cap=cap)
+                    cfg["maxalign"] = 16
+                    ops = [AB(cap - doff - k), op, AB(1)] if cap - doff - k > 0 else [op]
+                    drivers.append({"id": "end:%s:%d:%d:%d" % (layout, cap, k, j), "cfg": cfg, "ops": ops})
     return drivers
 
 
